@@ -714,6 +714,31 @@ fn run_script(script: &[&str], n: usize) {
                             sh.scanned_p.store(log.len(), Ordering::SeqCst);
                             format!("e[{}]", out.join(","))
                         }
+                        "idxdump" => {
+                            // every page-aligned area of the device files that parses as a blob index page:
+                            // partition@offset=hash.sequence.offset.len/...  (what a block scan can possibly see)
+                            let mut out = vec![];
+                            for part in 0..64u32 {
+                                let f = dir.join(format!("foyer-storage-direct-fs-{:08}", part));
+                                let Ok(data) = std::fs::read(&f) else { break };
+                                let mut off = 0;
+                                while off + index_size <= data.len() {
+                                    if let Some(idx) = BlobIndexReader::read(&data[off..off + index_size]) {
+                                        out.push(format!(
+                                            "{}@{}={}",
+                                            part,
+                                            off,
+                                            idx.iter()
+                                                .map(|i| format!("{}.{}.{}.{}", i.hash, i.sequence, i.offset, i.len))
+                                                .collect::<Vec<_>>()
+                                                .join("/")
+                                        ));
+                                    }
+                                    off += PAGE;
+                                }
+                            }
+                            format!("idx[{}]", out.join(";"))
+                        }
                         "bev" => {
                             // hook H2: the block manager's events since the last `bev`
                             use foyer_storage::verif::BlockEvent as E;
